@@ -7,8 +7,9 @@ def groups():
     src = ['vector.c', 'array.c', 'memory.c', 'string.c', '_string.c']
     G = []
     for w, d in (('narrow', []), ('wide', ['-DVF_S_WIDE'])):
-        G.append(Group('string.b.edit.' + w, ['C10'], 'B', S, 'h_b_edit', sources=src, defines=d, unwind=40, timeout=2400, replay=True,
+      for nw, tier in ((3, 'quick'), (4, 'thorough')):
+        G.append(Group('string.b.edit.%s.w%d' % (w, nw), ['C10'], 'B', S, 'h_b_edit', sources=src, defines=d + ['-DVF_W=%d' % nw], unwind=70, timeout=2400, replay=True, tier=tier,
                        apply_loops=False,
                        what='reference-string comparison after every edit (%s): set, insert (string / C string / repeated char) at every position, append, substr and erase with counts 0,1,2,SIZE_MAX-1,SIZE_MAX, resize down/up, swap, clear; find_ch/find_str/compare against the C library' % w,
-                       scope='base words "", "a", "ab", "bab" x inserted words x every position; strings up to 15 characters'))
+                       scope='base words "", "a", "ab"%s x inserted words x every position; strings up to 15 characters' % (', "bab"' if nw == 4 else '')))
     return G
